@@ -102,6 +102,19 @@ pub fn check_alg<S: Alg>(c: &Case, ctx: &mut CaseCtx, always_hiding: bool) -> Re
             if S::is_zero_poly(poly) {
                 ctx.check(parts.iter().all(|x| x.is_zero()), sig(P, S::NAME, "commit", "zero_not_identity"), || "zero polynomial does not commit to the identity".into())?;
             }
+            // the same polynomial in another representation of its type commits to the same element
+            if let Some((alt, how)) = S::alt_representation(&keys, poly, c.scn.seeds[2] ^ (name.len() as u64 + poly.degree() as u64)) {
+                ctx.label(how);
+                let la = LabeledPolynomial::new(name.into(), alt, bd, None);
+                match commit_one::<S>(&keys, &la, c.scn.seeds[0]) {
+                    Out::Ok((ca, _)) => {
+                        ctx.check(group_eq(&S::comm_parts(&ca), &naive), sig(P, S::NAME, "commit", "depends_on_representation"), || {
+                            format!("commit({name}) with {how} differs from the commitment of the canonical form")
+                        })?;
+                    }
+                    o => return ctx.fail(sig(P, S::NAME, "commit", "representation_refused"), format!("commit({name}) with {how} -> {}", o.describe_nodebug())),
+                }
+            }
             // deterministic without hiding
             if let Out::Ok((cm2, _)) = commit_one::<S>(&keys, &lp, c.scn.seeds[1]) {
                 ctx.check(ser(&cm) == ser(&cm2), sig(P, S::NAME, "commit", "non_hiding_not_deterministic"), || "two non-hiding commitments differ".into())?;
